@@ -103,8 +103,14 @@ def main():
             results[seed] = {"target": prop, "result": tag, "rules": new, "analysis_errors": newerr}
             print(f"{seed} target={prop} {tag} rules={ {r: cs[:2] for r, cs in new.items()} } errors={newerr[:2]}")
     print(f"caught={caught} missed={missed} of {len(seeds)}")
-    with open(os.path.join(VERIF, "seeded", "RESULTS.json"), "w") as f:
-        json.dump(results, f, indent=1, sort_keys=True)
+    path = os.path.join(VERIF, "seeded", "RESULTS.json")
+    try:
+        allres = json.load(open(path)) if args else {}
+    except (OSError, ValueError):
+        allres = {}
+    allres.update(results)
+    with open(path, "w") as f:
+        json.dump(allres, f, indent=1, sort_keys=True)
 
 
 if __name__ == "__main__":
